@@ -1575,3 +1575,44 @@ def immutable_field_ints(W, adt, field):
             vals.add(n)
     cache[(adt, field)] = sorted(vals)
     return cache[(adt, field)]
+
+
+def duration_ms(W, t):
+    """Milliseconds of a constant std::time::Duration term: `Duration::from_millis/from_secs/from_micros/from_nanos(k)`, `Duration::new(s, n)`, or
+    a Duration constant evaluated by the compiler (`const T: Duration = Duration::from_millis(100)`).  None when not a constant."""
+    t = values.strip_payload(W.expand(t)) if isinstance(t, tuple) else t
+    if not isinstance(t, tuple) or not t:
+        return None
+    if is_call(t) and "Duration" in t[1] and t[2] and all(isinstance(x, tuple) and x[0] == "int" for x in t[2]):
+        nm = callee_name(t[1])
+        k = t[2][0][1]
+        if nm in ("from_millis", "from_secs", "from_micros", "from_nanos"):
+            return k * {"from_millis": 1, "from_secs": 1000, "from_micros": 0.001, "from_nanos": 0.000001}[nm]
+        if nm == "new" and len(t[2]) == 2:
+            return k * 1000 + t[2][1][1] / 1e6
+    if t[0] == "agg" and str(t[1]).endswith("Duration") or (t[0] == "agg" and "time::Duration" in str(t[1])):
+        ops = t[2]
+        if len(ops) == 2 and isinstance(ops[0], tuple) and ops[0][0] == "int":
+            n = ops[1]
+            while isinstance(n, tuple) and n and n[0] == "agg" and len(n[2]) == 1:
+                n = n[2][0]
+            if isinstance(n, tuple) and n[0] == "int":
+                return ops[0][1] * 1000 + n[1] / 1e6
+    return None
+
+
+def closure_env_terms(W, cpath):
+    """For a closure function: {('field', env param, 'i'): term of the captured value as the creating function sees it} (empty for non-closures or
+    when the creation site is not found)."""
+    P = W.prog
+    if "{closure" not in cpath:
+        return {}
+    out = {}
+    for (o, bb) in P.closure_sites(cpath) or []:
+        oev = W.ev(o.path)
+        for a in oev.call_args(bb):
+            if isinstance(a, tuple) and a and a[0] == "closure" and a[1] == cpath:
+                for i, u in enumerate(a[2]):
+                    out[("field", ("param", cpath, 1), str(i))] = W.expand(u)
+                    out[("field", ("obj", cpath, 1), str(i))] = W.expand(u)     # a by-value environment that the closure mutates
+    return out
